@@ -176,7 +176,19 @@ func runSpec(p *eng.Solo, sp spec) {
 	for _, r := range b.reports {
 		noPoll[filepath.Base(r.File)] = r.Counts["select-default"] == 0
 	}
-	jobs := sp.jobs(p.Thorough(), dir, noPoll)
+	var jobs []Job
+	for _, j := range sp.jobs(p.Thorough(), dir, noPoll) {
+		if j.Shards <= 1 {
+			jobs = append(jobs, j)
+			continue
+		}
+		for i := 0; i < j.Shards; i++ {
+			k := j
+			k.Shard, k.NShards = i, j.Shards
+			k.Name = fmt.Sprintf("%s [shard %d/%d]", j.Name, i+1, j.Shards)
+			jobs = append(jobs, k)
+		}
+	}
 	// reserve time for the race pass at the end
 	total := time.Until(p.Deadline)
 	reserve := total / 4
@@ -351,6 +363,7 @@ func runSpec(p *eng.Solo, sp spec) {
 func stripJob(j Job) Job {
 	j.Deadline = 0
 	j.Bounds = nil
+	j.Shard, j.NShards = 0, 0
 	return j
 }
 
